@@ -14,12 +14,12 @@ ASSUMPTIONS = ["message level: the transport delivers each PDU intact, once, in 
 
 
 def correspondence(ctx):
-    return corr14.run(ctx, 120 if ctx.quick else 5000, 60 if ctx.quick else 2500, 17)
+    return corr14.run(ctx, ctx.n(120, 5000), ctx.n(60, 2500), 17)
 
 
 def oracle(ctx, full):
     rng = random.Random(ctx.seed * 7907 + 17)
-    n = 50 if (ctx.quick and not full) else 2500
+    n = ctx.n(50, 2500, full)
     findings, evals, distinct, samples = [], 0, set(), []
     stat = dict(txs=0, multi_packet=0, seedkey=0, writes=0)
     for _ in range(n):
